@@ -20,6 +20,19 @@ CHECKS = {
                 'by the bounded sweep of the thorough tier, labelled bounded.',
         'technique': TECH + '; loop invariant over the segment abstraction',
     },
+    'C05': {
+        'level': 'proof',
+        'text': 'parse_raw, parse_tokenized, parse_partial_annotation and the six constructors/updates are proved total (no overflow, '
+                'no unwrap on None, no division by zero, every index in range, loops terminating) for every input string, with postconditions '
+                'saying that a failed update leaves exactly the default single-space sentence and a successful one leaves a sentence whose '
+                'character types, position maps, boundary count, tag-slot count and cleared scratch state are functions of the new text only, '
+                'whatever the object held before (update_* have no precondition); accessors and reset_tags are proved against the invariant.',
+        'design_ref': 'DESIGN.md section 5.C05',
+        'note': 'Trusted: std specs missing from vstd (Cow deref/to_mut, Option::replace, u32::from(char), str/String length <= isize::MAX), '
+                'opaque error constructor, extraction rules R0/R1/R4/R5/R7/R9/R10. Not proved: equality of parsed content with the annotated '
+                'input (C03/C04), the two writers (outside Verus).',
+        'technique': TECH + '; representation invariant + history-free postconditions',
+    },
 }
 
 NOT_APPLICABLE = {
@@ -34,7 +47,7 @@ NOT_APPLICABLE = {
 }
 
 
-PENDING = ['C01','C05','C06','C07','C08','C13','C14','C15','C16','C18','C19']
+PENDING = ['C01','C06','C07','C08','C13','C14','C15','C16','C18','C19']
 
 
 def main():
